@@ -150,33 +150,60 @@ func (e *Engine) encodeFunction(name string) (fe *FuncEnc, err error) {
 	}
 	fe.execFrame(f, st, tBool(true))
 	f.curBlock = nil
-	// exit
+	// exit: every postcondition is checked at every exit point separately (small, path-specific queries).  A return block
+	// that only joins paths (phis + return) is split into one exit point per incoming edge.
 	if len(f.rets) > 0 && fe.con != nil && len(fe.con.Ensures) > 0 {
-		var ins []inEdge
-		for _, r := range f.rets {
-			ins = append(ins, inEdge{cond: r.reach, st: r.st})
-		}
-		reach, xst := fe.merge(ins, "exit")
-		var res []Term
-		for i := 0; i < fn.Signature.Results().Len(); i++ {
-			var ts []Term
-			for _, r := range f.rets {
-				ts = append(ts, r.res[i])
-			}
-			res = append(res, fe.define("result", iteChain(ins, ts)))
-		}
+		f.exits = fe.exitPoints(f)
 		for _, en := range fe.con.Ensures {
 			if en.CaseType != nil {
 				fe.caseClause(f, en)
 				continue
 			}
-			t := fe.evalClause(f, en, xst, f.entry, nil, res, fn.Pos())
-			n0 := len(fe.obls)
-			fe.emit("post", en.Label, reach, t, en.Text, fn.Pos())
-			if len(en.Props) > 0 {
-				for _, o := range fe.obls[n0:] {
-					o.Props = en.Props
+			for i, x := range f.exits {
+				t := fe.evalClause(f, en, x.st, f.entry, nil, x.res, fn.Pos())
+				label := en.Label
+				if len(f.exits) > 1 {
+					label = fmt.Sprintf("%s@%d", en.Label, i+1)
 				}
+				n0 := len(fe.obls)
+				fe.emit("post", label, x.reach, t, en.Text, fn.Pos())
+				if len(en.Props) > 0 {
+					for _, o := range fe.obls[n0:] {
+						o.Props = en.Props
+					}
+				}
+			}
+		}
+	}
+	// package initializers establish the global invariants
+	if fn.Name() == "init" && len(f.rets) > 0 {
+		var ins []inEdge
+		for _, r := range f.rets {
+			ins = append(ins, inEdge{cond: r.reach, st: r.st})
+		}
+		reach, xst := fe.merge(ins, "initexit")
+		pk := e.pkgShort(fn.Pkg)
+		for _, gi := range e.globalinvs {
+			if !strings.HasPrefix(gi.Comp, "G_"+sanitize(pk)+"_") {
+				continue
+			}
+			var gtype types.Type
+			for _, m := range fn.Pkg.Members {
+				if g, ok := m.(*ssa.Global); ok && "G_"+sanitize(pk)+"_"+sanitize(g.Name()) == gi.Comp {
+					gtype = g.Type().(*types.Pointer).Elem()
+				}
+			}
+			if gtype == nil {
+				continue
+			}
+			v := fe.comp(xst, gi.Comp, e.sorts.sortOf(gtype))
+			// only the run that executes the initializer body establishes it
+			guard := fe.comp(f.entry, "G_"+sanitize(pk)+"_init_guard", SBool)
+			t := fe.evalCellInv(gi, v, gtype, xst)
+			n0 := len(fe.obls)
+			fe.emit("globalinv", strings.TrimPrefix(gi.Expr.Label, "globalinv."), tAnd(reach, tNot(guard)), t, gi.Expr.Text, fn.Pos())
+			for _, o := range fe.obls[n0:] {
+				o.Props = []string{"C09", "C08", "C18"}
 			}
 		}
 	}
@@ -228,6 +255,9 @@ func setup(repo string) (*Engine, error) {
 	e.specs = specs
 	if err := e.loadContracts(); err != nil {
 		return e, err
+	}
+	if err := e.compileSpecDefs(); err != nil {
+		return e, &EngineError{err.Error()}
 	}
 	for name := range e.contracts {
 		if _, ok := e.funcs[name]; !ok {
@@ -783,7 +813,7 @@ func (fe *FuncEnc) caseClause(f *Frame, en *Clause) {
 	}
 	var in, out []inEdge
 	var inRets []retInfo
-	for _, r := range f.rets {
+	for _, r := range f.exits {
 		if caseBlock == r.block || caseBlock.Dominates(r.block) {
 			in = append(in, inEdge{cond: r.reach, st: r.st})
 			inRets = append(inRets, r)
@@ -821,4 +851,45 @@ func (fe *FuncEnc) caseClause(f *Frame, en *Clause) {
 			fe.obls[len(fe.obls)-1].Props = en.Props
 		}
 	}
+}
+
+// exitPoints lists the exit points of the function: its returns, with pure join-and-return blocks split per incoming edge.
+func (fe *FuncEnc) exitPoints(f *Frame) []retInfo {
+	ci := analyzeCFG(f.fn)
+	var out []retInfo
+	for _, r := range f.rets {
+		b := r.block
+		trivial := len(b.Preds) > 1 && ci.loops[b] == nil
+		var ret *ssa.Return
+		for _, in := range b.Instrs {
+			switch x := in.(type) {
+			case *ssa.Phi, *ssa.DebugRef:
+			case *ssa.Return:
+				ret = x
+			default:
+				trivial = false
+			}
+		}
+		if !trivial || ret == nil {
+			out = append(out, r)
+			continue
+		}
+		sig := f.fn.Signature.Results()
+		for _, p := range b.Preds {
+			cond, ok := f.edgeCond[[2]int{p.Index, b.Index}]
+			if !ok {
+				continue
+			}
+			var res []Term
+			for i, v := range ret.Results {
+				if phi, isPhi := v.(*ssa.Phi); isPhi && phi.Block() == b {
+					res = append(res, fe.phiOperand(phi, b, p))
+				} else {
+					res = append(res, fe.valAs(v, sig.At(i).Type()))
+				}
+			}
+			out = append(out, retInfo{block: p, reach: cond, st: f.out[p], res: res, pos: r.pos})
+		}
+	}
+	return out
 }
